@@ -114,12 +114,15 @@ class Ctx:
         return max(1, int((quick if self.tier == "quick" else thorough) * scale))
 
     # ---- bookkeeping
-    def note(self, case, sig=None, labels=()):
+    def note(self, case, sig=None, labels=(), sigs=None):
         self.evaluations += 1
         for l in labels:
             self.labels[l] += 1
+        sigs = list(sigs or [])
         if sig is not None:
-            for s in (sig if isinstance(sig, (list, set, tuple)) and not isinstance(sig, str) else [sig]):
+            sigs.append(sig)
+        if sigs:
+            for s in sigs:
                 if len(self.sigs) < 50000:
                     self.sigs.add(json.dumps(jsonable(s), sort_keys=True) if not isinstance(s, str) else s)
             # keep a few non-trivial samples, spread over the run
@@ -152,7 +155,7 @@ class Ctx:
                 self.note(case, sig=None, labels=("known:" + kid,))
                 return True
             raise
-        self.note(case, res.get("sig"), res.get("labels", ()))
+        self.note(case, res.get("sig"), res.get("labels", ()), res.get("sigs"))
         return True
 
     # ---- hypothesis driver
